@@ -480,7 +480,9 @@ func (fs *fileStore) flush(out *os.File, fields core.Fields, filter goexpr.Expr,
 			}
 		}()
 
-		_, err = fs.iterate(fields, ms, !shouldSort, !disallowRaw, write)
+		// raw rows can only be passed through on an unsorted flush: doWrite re-encodes
+		// every row it hands to the sorter and has no columns to encode for a raw row
+		_, err = fs.iterate(fields, ms, !shouldSort, !disallowRaw && !shouldSort, write)
 		return
 	}
 
